@@ -114,7 +114,7 @@ def total_assignment_site(prog):
            and "label(" in show(cs.args[1]) and "next(" in show(cs.args[1])]
     key = "%s:literal-status" % fn.npath
     if len(idx) != 1:
-        raise CheckerError("LC: assignment lookup in Cnf::eval not found (%d)" % len(idx))
+        return predicate_form(prog, fn, total=True)
     g = idx[0]
     loops = sorted([h for h, body in cfg.loop_headers.items() if g.bb in body], key=lambda h: len(cfg.loop_headers[h]))
     header = loops[0]
@@ -209,6 +209,10 @@ def conditioning_site(prog):
                     "(same: %s, complementary: %s, other: %s)" % ([pp(x) for x in same_lit], [pp(x) for x in compl], [pp(x) for x in other]))
     else:
         sl, cl, ot = same_lit.pop(), compl.pop(), other.pop()
+        flagged = any(any(e[0] == "set" for e in effs) for effs, _ in sl)
+        if flagged and not pushes(sl) and ends(sl) <= {"leave-loop", "next-clause"} and not pushes(cl) and pushes(ot):
+            return inst("LC", key, UNDECIDED, fn, g.line, "the satisfied case sets a flag and leaves the literal loop; whether the flag "
+                        "suppresses the clause is outside this rule (same: %s)" % pp(sl))
         if pushes(sl) or ends(sl) != {"next-clause"}:
             errs.append("a clause containing the conditioning literal is not dropped (does %s)" % pp(sl))
         if pushes(cl) or ends(cl) != {"next-literal"}:
@@ -219,57 +223,79 @@ def conditioning_site(prog):
                 errs[0] if errs else "same literal → clause dropped; complementary → literal dropped; other → kept")
 
 
-def opt_val(t, a, p, litp):
+_PROG = [None]
+
+
+def opt_val(t, a, p, litp, bind=None):
     """value of a term over (assignment a ∈ {None,0,1}, polarity p) inside a predicate closure whose literal is `litp`:
-    scalars are ints, option values are ('None',) / ('Some', v)"""
+    scalars are ints, option values are ('None',) / ('Some', v); `bind` is the value of the closure parameter when a
+    nested closure (Option::map) is being applied"""
     t = strip(t)
     if not isinstance(t, tuple) or not t:
         raise Und("non-term")
     if t[0] == "const":
         return int(t[2])
-    if mir.is_call(t, "polarity") and strip(t[2][0]) == litp:
+    if t == ("param", 2) and bind is not None:
+        return bind
+    if mir.is_call(t, "polarity") and (strip(t[2][0]) == litp or strip(t[2][0])[0] == "upvar"):
         return p
+    if ((t[0] == "call" and t[1].name == "index" and len(t[2]) == 2 and "label(" in show(t[2][1])) or
+            (t[0] == "index" and "label(" in show(t[2]))):
+        if a is None:
+            raise Und("total assignment has no unassigned case")
+        return a
+    if t[0] == "deref":
+        return opt_val(t[1], a, p, litp, bind)
+    if t[0] == "call" and t[1].name == "map" and len(t[2]) == 2 and isinstance(t[2][1], tuple) and t[2][1][0] == "agg" and t[2][1][1] == "closure":
+        x = opt_val(t[2][0], a, p, litp, bind)
+        if x == ("None",):
+            return x
+        kids = [g for g in _PROG[0].lib_fns if g.npath == t[2][1][2]] if _PROG[0] else []
+        if len(kids) != 1:
+            raise Und("closure of map not found")
+        return ("Some", opt_val(kids[0].terms.ret, a, p, litp, bind=x[1]))
     if mir.is_call(t, "get") and len(t[2]) == 2 and mir.is_call(strip(t[2][1]), "label"):
         return ("None",) if a is None else ("Some", a)
     if t[0] == "agg" and str(t[2]).endswith("Option"):
-        return ("None",) if t[3] == "None" else ("Some", opt_val(t[4][0], a, p, litp))
+        return ("None",) if t[3] == "None" else ("Some", opt_val(t[4][0], a, p, litp, bind))
     if t[0] == "un" and t[1] == "Not":
-        return 1 - opt_val(t[2], a, p, litp)
+        return 1 - opt_val(t[2], a, p, litp, bind)
     if t[0] == "bin" and t[1] in ("Eq", "Ne"):
-        x, y = opt_val(t[2], a, p, litp), opt_val(t[3], a, p, litp)
+        x, y = opt_val(t[2], a, p, litp, bind), opt_val(t[3], a, p, litp, bind)
         return int((x == y) == (t[1] == "Eq"))
     if t[0] == "call" and t[1].name in ("eq", "ne") and len(t[2]) == 2:
-        x, y = opt_val(t[2][0], a, p, litp), opt_val(t[2][1], a, p, litp)
+        x, y = opt_val(t[2][0], a, p, litp, bind), opt_val(t[2][1], a, p, litp, bind)
         return int((x == y) == (t[1].name == "eq"))
     if t[0] == "call" and t[1].name in ("is_some", "is_none") and t[2]:
-        x = opt_val(t[2][0], a, p, litp)
+        x = opt_val(t[2][0], a, p, litp, bind)
         return int((x != ("None",)) == (t[1].name == "is_some"))
     if t[0] == "call" and t[1].name in ("unwrap_or",) and len(t[2]) == 2:
-        x = opt_val(t[2][0], a, p, litp)
-        return x[1] if x[0] == "Some" else opt_val(t[2][1], a, p, litp)
+        x = opt_val(t[2][0], a, p, litp, bind)
+        return x[1] if x[0] == "Some" else opt_val(t[2][1], a, p, litp, bind)
     if t[0] == "field" and t[2] == "0" and isinstance(t[1], tuple) and t[1][0] == "as":
-        x = opt_val(t[1][1], a, p, litp)
+        x = opt_val(t[1][1], a, p, litp, bind)
         if x[0] != "Some":
             raise Und("payload of None")
         return x[1]
     if t[0] == "discr":
-        x = opt_val(t[1], a, p, litp)
+        x = opt_val(t[1], a, p, litp, bind)
         return 0 if x == ("None",) else 1
     if t[0] == "gamma":
-        c = opt_val(t[1], a, p, litp)
+        c = opt_val(t[1], a, p, litp, bind)
         for lab, v in t[2]:
             if lab == str(c):
-                return opt_val(v, a, p, litp)
+                return opt_val(v, a, p, litp, bind)
         for lab, v in t[2]:
             if isinstance(lab, tuple) and lab[0] == "not" and str(c) not in lab[1]:
-                return opt_val(v, a, p, litp)
+                return opt_val(v, a, p, litp, bind)
         raise Und("gamma arm")
     raise Und("term %s" % show(t)[:50])
 
 
-def predicate_form(prog, fn):
+def predicate_form(prog, fn, total=False):
     """the scan written with an iterator predicate (`clause.iter().any(|lit| ..)`): the predicate must hold exactly for a
     satisfied literal"""
+    _PROG[0] = prog
     key = "%s:literal-status" % fn.npath
     kids = [g for g in prog.lib_fns if g.npath.startswith(fn.npath + "::{closure")]
     cand = []
@@ -278,7 +304,9 @@ def predicate_form(prog, fn):
             if cs.callee.name == "get" and "PartialModel" in cs.callee.key() and len(cs.args) == 2 and \
                     mir.is_call(strip(cs.args[1]), "label") and strip(strip(cs.args[1])[2][0])[0] == "param":
                 cand.append((g, strip(strip(cs.args[1])[2][0])))
-    used = [c for c in fn.terms.calls if c.callee.name in ("any", "all", "find", "position")]
+            if total and cs.callee.name == "index" and len(cs.args) == 2 and "label(arg2)" in show(cs.args[1]):
+                cand.append((g, ("param", 2)))
+    used = [c for h in [fn] + kids for c in h.terms.calls if c.callee.name in ("any", "all", "find", "position")]
     by_used = {a[2] for c in used for a in c.args if isinstance(a, tuple) and a and a[0] == "agg" and a[1] == "closure"}
     cand = [c for c in cand if c[0].npath in by_used]
     if len(cand) != 1 or not used:
@@ -289,7 +317,7 @@ def predicate_form(prog, fn):
         return inst("LC", key, UNDECIDED, fn, None, "the literal predicate is used by %s" % how)
     errs = []
     try:
-        for a in (None, 0, 1):
+        for a in ((0, 1) if total else (None, 0, 1)):
             for p in (0, 1):
                 got = opt_val(g.terms.ret, a, p, litp)
                 want = int(a is not None and a == p)
